@@ -566,10 +566,17 @@ def cases(rng, tier):
                 yield "hdr_emit1 %s plain - N N %s" % (iface, mk_pairs(tag, [("x-title", v)]))
                 if v.lower() == v and v.upper() == v:      # names are lower-cased: the model's case table is Latin-1
                     yield "hdr_emit1 %s plain - N N %s" % (iface, mk_pairs(tag, [(v, "1")]))
+    # cookies whose name or value is outside Latin-1 (the quoting escapes Latin-1 only): refuse or emit clean
+    for iface in ("wsgi", "asgi"):
+        for n, v in (("a", "\u4e2d"), ("a", "x\u4e2dy; HttpOnly"), ("sid", "\u20ac; Max-Age=99"), ("\u4e2d", "v"),
+                     ("a", "\U0001f600,b=c"), ("a", "\u4e2d\r\nSet-Cookie: evil=1")):
+            yield "hdr_emit1 %s plain - N %s" % (iface, mk_pairs("C", [(n, v)]))
+            yield "hdr_emit1 %s plain - N %s" % (iface, mk_pairs("C", [("first", "1"), (n, v)]))
     for _ in range(20000 if thorough else 3000):
         kind = rng.choice(["plain", "plain", "redirect"])
         url = rand_url(rng) if kind == "redirect" else ""
-        cookies = [(rand_str(rng, dangerous, True), rand_str(rng, dangerous, True)) for _ in range(rng.randrange(0, 3))]
+        cookies = [(rand_str(rng, dangerous, rng.random() < 0.8), rand_str(rng, dangerous, rng.random() < 0.8))
+                   for _ in range(rng.randrange(0, 3))]
         ops = [rand_op(rng, False) for _ in range(rng.randrange(0, 5))]
         yield ("hdr_emit1 %s %s %s %s %s %s" % (rng.choice(["wsgi", "asgi"]), kind, enc(url), rand_init(rng, False),
                                               mk_pairs("C", cookies) if cookies else "N", " ".join(ops))).rstrip()
